@@ -3,6 +3,7 @@
 package olric
 
 import (
+	"context"
 	"encoding/hex"
 	"sort"
 
@@ -25,12 +26,12 @@ func (db *Olric) VerifStartManual() error {
 }
 
 func (db *Olric) VerifServe(conn redcon.Conn, cmd redcon.Command) { db.server.VerifServe(conn, cmd) }
-func (db *Olric) VerifRT() *routingtable.RoutingTable              { return db.rt }
-func (db *Olric) VerifDMap() *dmap.Service                         { return db.dmap }
-func (db *Olric) VerifBalancer() *balancer.Balancer                { return db.balancer }
-func (db *Olric) VerifPubSub() *pubsub.Service                     { return db.pubsub }
-func (db *Olric) VerifServer() *server.Server                      { return db.server }
-func (db *Olric) VerifName() string                                { return db.name }
+func (db *Olric) VerifRT() *routingtable.RoutingTable             { return db.rt }
+func (db *Olric) VerifDMap() *dmap.Service                        { return db.dmap }
+func (db *Olric) VerifBalancer() *balancer.Balancer               { return db.balancer }
+func (db *Olric) VerifPubSub() *pubsub.Service                    { return db.pubsub }
+func (db *Olric) VerifServer() *server.Server                     { return db.server }
+func (db *Olric) VerifName() string                               { return db.name }
 
 // VerifResetConns drops the pooled redis clients so that they are re-created from the (updated)
 // client configuration.
@@ -73,3 +74,26 @@ func VerifNewLockContext(d DMap, key string, token []byte) LockContext {
 
 // VerifResponseEmpty reports whether a GetResponse carries no entry.
 func VerifResponseEmpty(r *GetResponse) bool { return r == nil || r.entry == nil }
+
+// VerifEmbeddedScan is EmbeddedDMap.Scan with the cluster client supplied by the caller.
+// EmbeddedDMap.Scan builds its own ClusterClient with the default (TCP) dialer, which has nothing to
+// connect to in the simulated cluster; everything after that line - the cluster iterator and the
+// embedded iterator that scans locally owned partitions in process - is the same code.
+func VerifEmbeddedScan(ctx context.Context, dm *EmbeddedDMap, cc *ClusterClient, options ...ScanOption) (Iterator, error) {
+	cdm, err := cc.NewDMap(dm.name)
+	if err != nil {
+		return nil, err
+	}
+	i, err := cdm.Scan(ctx, options...)
+	if err != nil {
+		return nil, err
+	}
+	e := &EmbeddedIterator{
+		client: dm.client,
+		dm:     dm.dm,
+	}
+	clusterIterator := i.(*ClusterIterator)
+	clusterIterator.scanner = e.scanOnOwners
+	e.clusterIterator = clusterIterator
+	return e, nil
+}
